@@ -1296,8 +1296,8 @@ def run(ctx):
   # trees stop when their budget is used; what was not run is reported, never silently dropped
   # (counted from the end of the Coq build, which is a no-op once the .vo files are there)
   deadline_priming = t0 + ctx.scale(34, 240)
-  deadline_random = t0 + ctx.scale(58, 900)
-  deadline_typed = t0 + ctx.scale(90, 1300)
+  deadline_random = t0 + ctx.scale(62, 900)
+  deadline_typed = t0 + ctx.scale(92, 1300)
   fixed = [('corpus:' + name, [quirks, c[1], c[2]]) for name, c in CORPUS9.items()]
   fixed += [(name, [quirks, c[1], c[2]]) for name, c in sweep_cases(ctx.scale(1, 3))]
   fixed += [(name, [quirks, c[1], c[2]]) for name, c in batch_sweep_cases(ctx.scale(4, 1))]
@@ -1345,7 +1345,8 @@ def run(ctx):
   # which nodes hold which derived fact before a silent mutation, on typed trees (direct oracle)
   t1 = time.time()
   try:
-    np_ = priming_sweep(ctx, rng, deadline_priming, stride=ctx.scale(8, 1))
+    # (the head of the sweep -- one node asked for one memoised fact, silent path -- needs ~8 s: it gets its own slice even when the fixed cases ran long)
+    np_ = priming_sweep(ctx, rng, max(deadline_priming, min(time.time() + ctx.scale(14, 240), t0 + ctx.scale(52, 400))), stride=ctx.scale(8, 1))
     ctx.log('priming sweep on typed trees: %d cases in %.1fs' % (np_, time.time() - t1))
   except Exception as e:       # pylint: disable=broad-except
     ctx.hit('C09/typed/harness/%s' % type(e).__name__, 'the priming sweep raised %s: %s' % (type(e).__name__, str(e)[:200]), dict(priming=-1))
